@@ -581,7 +581,12 @@ func (ex *Exec) step(fr *Frame, ins ssa.Instruction) {
 	case *ssa.RunDefers:
 		ex.runDefers(fr)
 	case *ssa.Go:
-		panic(ex.unsupported("go statement"))
+		// goroutines are not modelled; a harness may declare that the goroutines started by the code
+		// under test are irrelevant to the obligation (metrics/await helpers) with vx.IgnoreGo()
+		if !ex.W.ignoreGo {
+			panic(ex.unsupported("go statement"))
+		}
+		ex.W.goSkipped++
 	case *ssa.ChangeInterface:
 		fr.locals[x] = ex.get(fr, x.X)
 	case *ssa.ChangeType:
@@ -999,6 +1004,17 @@ func (ex *Exec) indexAddr(fr *Frame, x *ssa.IndexAddr) Value {
 		}
 		return &PtrV{obj: p.obj, path: extendPath(p.path, i), typ: x.Type()}
 	case *BytesV:
+		// constant content: a read-only view (writes through the element pointer are not propagated back)
+		if cs, ok := a.s.StrVal(); ok && a.isNil.IsFalse() {
+			if i < 0 || i >= len(cs) {
+				panic(ex.goPanic("index out of range [%d] with length %d", i, len(cs)))
+			}
+			es := make([]Value, len(cs))
+			for k := range es {
+				es[k] = ex.tt.BV(uint64(cs[k]), 8)
+			}
+			return &PtrV{obj: ex.newObj(&ArrayV{es: es}, nil), path: []int{i}, typ: x.Type()}
+		}
 		panic(ex.unsupported("indexing symbolic bytes"))
 	}
 	panic(ex.unsupported("indexaddr on %T", v))
